@@ -68,6 +68,8 @@ type BoundContract struct {
 	Trusted     bool
 	Variant     string
 	FreshResult map[int]bool
+	UseLemma    map[int][]*ast.FuncLit // proved lemmas assumed at function entry (-1) or at the head of loop N
+	Lemma       *specFunc              // this bound contract is a lemma (proved by induction)
 	Known       map[string]string // clause label -> known finding id
 }
 
@@ -75,6 +77,9 @@ func (bc *BoundContract) info() *types.Info { return bc.Pkg.TypesInfo }
 
 // KeyString identifies the contract: package path, function key and variant.
 func (bc *BoundContract) KeyString() string {
+	if bc.Lemma != nil {
+		return bc.Pkg.PkgPath + ".lemma " + bc.FC.Name
+	}
 	k := bc.Pkg.PkgPath + "." + bc.FC.Key()
 	if bc.Variant != "" {
 		k += "[" + bc.Variant + "]"
@@ -342,7 +347,7 @@ func (env *specEnv) ident(x *ast.Ident) Val {
 		if o.Parent() == o.Pkg().Scope() {
 			g := u.E.globalByObj(o)
 			if g != nil {
-				return u.load(env.st, u.E.globalAddr(u, g).(*Term), o.Type())
+				return env.loadGlobal(g, o.Type())
 			}
 		}
 		panic(fmt.Sprintf("contract identifier %s is not bound", x.Name))
@@ -502,7 +507,7 @@ func (env *specEnv) selector(x *ast.SelectorExpr) Val {
 		if v, ok := obj.(*types.Var); ok {
 			g := u.E.globalByObj(v)
 			if g != nil {
-				return u.load(env.st, u.E.globalAddr(u, g).(*Term), v.Type())
+				return env.loadGlobal(g, v.Type())
 			}
 		}
 		panic("unsupported qualified identifier " + env.show(x))
@@ -928,6 +933,60 @@ type specFunc struct {
 	bc   *BoundContract
 	decl *ast.FuncDecl
 	pkg  *packages.Package
+	from *ast.FuncDecl // lemma: the start of the induction
+	usesDecl *ast.FuncDecl
+	uses     []*ast.FuncLit // lemma: earlier lemmas assumed in its proof
+}
+
+// assumeLemmas adds, for every "uselemma L(args)" clause attached to the given point (-1: function entry, N: loop N),
+// the statement  forall k: L(args, k)  evaluated in state st. L has been proved by induction for every memory.
+func (u *Unit) assumeLemmas(bc *BoundContract, fr *frame, st *State, at int, ctx *ssa.BasicBlock) {
+	if bc == nil {
+		return
+	}
+	for _, fl := range bc.UseLemma[at] {
+		var env *specEnv
+		if fr != nil {
+			env = fr.specEnv(bc, st)
+			env.ctx = ctx
+		} else {
+			env = u.newSpecEnv(bc, st, st, u.params, nil)
+		}
+		c := u.C
+		pv := bc.info().Defs[fl.Type.Params.List[0].Names[0]].(*types.Var)
+		k := c.BoundVar("lk", BV(64))
+		sub := *env
+		sub.vars = map[*types.Var]Val{}
+		for a, b := range env.vars {
+			sub.vars[a] = b
+		}
+		sub.vars[pv] = k
+		// the lemma's arguments are evaluated here and now; the lemma itself speaks about the entry memory (as the
+		// recursive spec functions it is about do)
+		call := fl.Body.List[0].(*ast.ReturnStmt).Results[0].(*ast.CallExpr)
+		var lf *types.Func
+		if id, ok := call.Fun.(*ast.Ident); ok {
+			lf, _ = bc.info().Uses[id].(*types.Func)
+		}
+		lsd := u.E.specFuncs[lf]
+		if lsd == nil || !lsd.bc.FC.Lemma {
+			panic("uselemma: " + env.show(call.Fun) + " is not a lemma")
+		}
+		var largs []Val
+		for _, a := range call.Args {
+			largs = append(largs, sub.eval(a))
+		}
+		entry := sub
+		entry.st = &State{pc: c.True, cells: map[*ssa.Alloc]Val{}, mems: map[string]*Mem{}}
+		entry.fr = nil
+		bodyV := entry.inlineSpec(lsd, largs)
+		body, ok := bodyV.(*Term)
+		if !ok {
+			panic("lemma is not boolean")
+		}
+		u.Trusted["lemma used: "+env.show(fl.Body.List[0].(*ast.ReturnStmt).Results[0])+" for every value of its last argument (proved by induction as a separate unit)"] = true
+		u.assume(st, c.Forall([]*Term{k}, body))
+	}
 }
 
 func (env *specEnv) inlineSpec(sd *specFunc, args []Val) Val {
@@ -979,9 +1038,13 @@ func (env *specEnv) inlineSpec(sd *specFunc, args []Val) Val {
 		}
 		rt := sd.bc.Sig.Results().At(0).Type()
 		var res Val
+		ufName := "spec_" + sd.decl.Name.Name
+		// A recursive spec function is a function of its arguments and of the ENTRY memory of the unit: its body is
+		// always evaluated over the entry state (one symbol, no dependence on later writes). Contracts describe
+		// later states through it with old()/entry values plus invariants that link the current state to them.
 		if isString(rt) {
 			// a string-valued function: three functions giving the header of the result
-			nm := "spec_" + sd.decl.Name.Name
+			nm := ufName
 			sv := &SliceV{Str: true,
 				Base: c.App(c.DeclareUF(nm+".base", ss, SAddr), SAddr, ts...),
 				Off:  c.App(c.DeclareUF(nm+".off", ss, BV(64)), BV(64), ts...),
@@ -994,7 +1057,7 @@ func (env *specEnv) inlineSpec(sd *specFunc, args []Val) Val {
 			if !ok {
 				panic("uninterpreted spec function must return a scalar or a string")
 			}
-			name := c.DeclareUF("spec_"+sd.decl.Name.Name, ss, rs)
+			name := c.DeclareUF(ufName, ss, rs)
 			res = c.App(name, rs, ts...)
 		}
 		if sd.bc.FC.Rec {
@@ -1355,4 +1418,75 @@ func (env *specEnv) ghostFieldName(name string) int {
 		env.u.E.ghostNames[name] = id
 	}
 	return id
+}
+
+// recKinds: the memory kinds read (transitively) by the body of a recursive spec function, found by a probe
+// evaluation with arbitrary arguments.
+func (u *Unit) recKinds(sd *specFunc) []string {
+	if u.E.recKinds == nil {
+		u.E.recKinds = map[*specFunc][]string{}
+	}
+	if ks, ok := u.E.recKinds[sd]; ok {
+		if u.probing > 0 && u.readRec != nil {
+			for _, k := range ks {
+				u.readRec[k] = true
+			}
+		}
+		return ks
+	}
+	u.E.recKinds[sd] = nil // cycle guard
+	savedRec, savedAss, savedAssumed := u.readRec, len(u.assumes), u.assumed
+	u.readRec = map[string]bool{}
+	u.assumed = map[int]bool{}
+	for k, v := range savedAssumed {
+		u.assumed[k] = v
+	}
+	u.probing++
+	func() {
+		defer func() { u.probing-- }()
+		c := u.C
+		env := &specEnv{u: u, bc: sd.bc, st: &State{pc: c.True, cells: map[*ssa.Alloc]Val{}, mems: map[string]*Mem{}}, vars: map[*types.Var]Val{}}
+		for _, f := range sd.decl.Type.Params.List {
+			for _, n := range f.Names {
+				v := sd.pkg.TypesInfo.Defs[n].(*types.Var)
+				env.vars[v] = u.symVal(u.freshName("probe_"+v.Name()), v.Type(), false)
+			}
+		}
+		env.eval(sd.decl.Body.List[0].(*ast.ReturnStmt).Results[0])
+	}()
+	var ks []string
+	for _, k := range allKinds {
+		if u.readRec[k] {
+			ks = append(ks, k)
+		}
+	}
+	u.assumes = u.assumes[:savedAss]
+	u.assumed = savedAssumed
+	u.readRec = savedRec
+	if u.readRec != nil {
+		for _, k := range ks {
+			u.readRec[k] = true
+		}
+	}
+	u.E.recKinds[sd] = ks
+	return ks
+}
+
+// loadGlobal reads a package-level variable in a contract. A variable declared "global X readonly" (no writer found
+// by the scan of its package) has the value it had at entry in every state, so reading it does not make a recursive
+// spec function depend on the memory version.
+func (env *specEnv) loadGlobal(g *ssa.Global, t types.Type) Val {
+	u := env.u
+	a := u.E.globalAddr(u, g).(*Term)
+	if u.E.roGlobals[g.Pkg.Pkg.Path()+"."+g.Name()] {
+		if why := u.E.globalWritten(g); why == "" {
+			u.Trusted["read-only global "+g.Pkg.Pkg.Path()+"."+g.Name()+": same value in every state (no writer found by scan of its package)"] = true
+			saved := u.readRec
+			u.readRec = nil
+			v := u.load(&State{pc: u.C.True, cells: map[*ssa.Alloc]Val{}, mems: map[string]*Mem{}}, a, t)
+			u.readRec = saved
+			return v
+		}
+	}
+	return u.load(env.st, a, t)
 }
